@@ -5,7 +5,7 @@
    characters, the size field; both layouts.  [run (default_str c ck) ops] executes a history from
    the empty string.  [cap_ok c]: 0 <= c < 2^62.  [op_wf]: the numeric arguments are size_t values. *)
 From Tetl Require Import Lib.Base C08.Model C08.Spec C08.Core C04.Model C04.Spec C04.Inv C04.InvOps C04.Refuted
-  C04.CstrFacts C04.RefineBase C04.RefineOps1 C04.Refine C04.Total.
+  C04.CstrFacts C04.RefineBase C04.RefineOps1 C04.Refine C04.Total C04.PreDoc C04.ReplaceSpec.
 Local Open Scope Z_scope.
 
 (** * Refinement: the model is std::basic_string wherever the std result fits into the capacity.
@@ -131,6 +131,50 @@ Theorem C04_replace_keeps_invariant :
 Proof. exact (conj replace_keeps (conj replace_ptr_keeps (conj replace_cstr_keeps (conj replace5_keeps (conj replace_it_keeps replace_it_fill_keeps))))). Qed.
 Print Assumptions C04_replace_keeps_invariant.
 
+(* what replace DOES (ReplaceSpec.s_replace_inplace: overwrite n = min(count, size() - pos, |replacement|) characters at pos,
+   length unchanged), for the four index-based overloads and every argument: the call returns exactly when pos <= size()
+   (and pos2 <= str.size()), otherwise it stops at the precondition — where std throws out_of_range *)
+Theorem C04_replace_is_inplace :
+  (forall s pos count src, inv s -> 0 <= pos -> 0 <= count < 18446744073709551616 ->
+     match s_replace_inplace (contents s) pos count src with
+     | Some r => exists s', replace_m s pos count src = Ok s' /\ (inv s' /\ cap s' = cap s /\ ckind s' = ckind s) /\ contents s' = r
+     | None => replace_m s pos count src = Contract
+     end) /\
+  (forall s pos count src count2, inv s -> 0 <= pos -> 0 <= count < 18446744073709551616 -> 0 <= count2 <= zlen src ->
+     match s_replace_inplace (contents s) pos count (take count2 src) with
+     | Some r => exists s', replace_ptr_m s pos count src count2 = Ok s' /\ (inv s' /\ cap s' = cap s /\ ckind s' = ckind s) /\ contents s' = r
+     | None => replace_ptr_m s pos count src count2 = Contract
+     end) /\
+  (forall s pos count a x, inv s -> 0 <= pos -> 0 <= count < 18446744073709551616 -> cstr_arg_ok a -> s_cstr a = Some x ->
+     match s_replace_inplace (contents s) pos count x with
+     | Some r => exists s', replace_cstr_m s pos count a = Ok s' /\ (inv s' /\ cap s' = cap s /\ ckind s' = ckind s) /\ contents s' = r
+     | None => replace_cstr_m s pos count a = Contract
+     end) /\
+  (forall s pos count src pos2 count2, inv s -> 0 <= pos -> 0 <= count < 18446744073709551616 ->
+     0 <= pos2 -> 0 <= count2 < 18446744073709551616 -> zlen src < 18446744073709551616 ->
+     match s_substr src pos2 count2 with
+     | Some x =>
+         match s_replace_inplace (contents s) pos count x with
+         | Some r => exists s', replace5_m s pos count src pos2 count2 = Ok s' /\ (inv s' /\ cap s' = cap s /\ ckind s' = ckind s) /\ contents s' = r
+         | None => replace5_m s pos count src pos2 count2 = Contract
+         end
+     | None => replace5_m s pos count src pos2 count2 = Contract
+     end).
+Proof. exact (conj replace_is_inplace (conj replace_ptr_is_inplace (conj replace_cstr_is_inplace replace5_is_inplace))). Qed.
+Print Assumptions C04_replace_is_inplace.
+
+(* the in-place replace IS std::basic_string::replace exactly when the replacement is as long as the replaced range
+   min(count, size() - pos) — the complement is the defect region of KF-C04-replace-inplace *)
+Theorem C04_replace_std_iff_same_length : forall l pos count x, 0 <= pos <= slen l -> 0 <= count ->
+  (s_replace_inplace l pos count x = s_replace l pos count x <-> slen x = Z.min count (slen l - pos)).
+Proof.
+  intros l pos count x Hp Hc. split.
+  - intros E. destruct (Z.eq_dec (slen x) (Z.min count (slen l - pos))) as [H|H]; [exact H|].
+    exfalso. exact (s_replace_inplace_differs l pos count x Hp Hc H E).
+  - intros H. apply s_replace_inplace_std; [lia|exact Hc|exact H].
+Qed.
+Print Assumptions C04_replace_std_iff_same_length.
+
 (** * Outcome of EVERY call (also outside the domain of the refinement theorem): a mutator either returns a state
       satisfying the invariant or stops at a TETL_PRECONDITION — exactly when the documented precondition
       [pre_ok s o] (Total.v: e.g. size() < capacity() for push_back, index <= size() for insert and erase,
@@ -142,6 +186,11 @@ Theorem C04_step_outcome : forall s o, inv s -> op_wf o -> ptr_ok o ->
   else step s o = Contract.
 Proof. exact step_outcome. Qed.
 Print Assumptions C04_step_outcome.
+
+(* the executable test the spec leg of the correspondence run uses (PreDoc.v, no proofs) is the test of C04_step_outcome *)
+Theorem C04_pre_doc_is_pre_ok : forall s o, pre_doc s o = pre_ok s o.
+Proof. intros s o. destruct o; reflexivity. Qed.
+Print Assumptions C04_pre_doc_is_pre_ok.
 
 Theorem C04_history_never_ub : forall ops s, inv s -> Forall op_wf ops -> Forall ptr_ok ops ->
   (exists s', run s ops = Ok s' /\ (inv s' /\ cap s' = cap s /\ ckind s' = ckind s)) \/ run s ops = Contract.
@@ -176,4 +225,19 @@ Proof.
   - eexists. split; [vm_compute; reflexivity|]. vm_compute. reflexivity.
   - repeat constructor; cbn; unfold szt, cstr_arg_ok, zlen; cbn; try lia; try discriminate.
   - repeat constructor; cbn; unfold zlen; cbn; lia.
+Qed.
+
+(* replace: "abcdef".replace(1, 3, "xyz") (same length: the std result "axyzef") and .replace(1, 2, "xyz") (in place:
+   "axydef"; std: "axyzdef") on the model, capacity 8 *)
+Example C04_replace_nonvacuous :
+  exists s, ctor_ptr 8 CChar [97; 98; 99; 100; 101; 102] 6 = Ok s /\ inv s /\
+    s_replace_inplace (contents s) 1 3 [120; 121; 122] = s_replace (contents s) 1 3 [120; 121; 122] /\
+    (exists s', replace_m s 1 3 [120; 121; 122] = Ok s' /\ contents s' = [97; 120; 121; 122; 101; 102]) /\
+    s_replace_inplace (contents s) 1 2 [120; 121; 122] = Some [97; 120; 121; 100; 101; 102] /\
+    s_replace (contents s) 1 2 [120; 121; 122] = Some [97; 120; 121; 122; 100; 101; 102].
+Proof.
+  eexists. split; [vm_compute; reflexivity|]. split.
+  - unfold inv, cap_ok. vm_compute. repeat split; discriminate.
+  - split; [vm_compute; reflexivity|]. split; [eexists; split; vm_compute; reflexivity|].
+    split; vm_compute; reflexivity.
 Qed.
